@@ -144,7 +144,8 @@ class GR:
         r = self.r
         return "iso=%d;tr=%s;fm=%s;fl=%s;loc=%s" % (r.randrange(2), r.choice(["none", "none", "upper"]),
                                                     r.choice(["none", "none", "numbr", "strwrap"]),
-                                                    fl or r.choice(["st", "st", "conc"]), r.choice(["en", "en", "en-US"]))
+                                                    fl or r.choice(["st", "st", "conc"]),
+                                                    r.choice(["en", "en", "en-US", "pl", "ru", "ar", "fr", "cs", "lt", "ja", "xx"]))
 
     def requests(self, args=None):
         r = self.r
